@@ -43,6 +43,15 @@ fn main() {
             let scn = props::scenario(&args[2]).expect("property");
             let tier = tier_of(&args[3]);
             let p = |i: usize| args[i].parse::<u64>().expect("number");
+            // watchdog: the worker loop stops by itself at the wall-clock cap; if the process is
+            // still alive long after that, one run does not return (a hang in the code under test or
+            // in the harness): give up loudly instead of blocking the parent forever
+            let cap = p(8);
+            std::thread::spawn(move || {
+                std::thread::sleep(Duration::from_secs(cap + 300));
+                eprintln!("HARNESS-ERROR: worker watchdog: a run did not return {} s after the wall-clock cap", 300);
+                std::process::exit(3);
+            });
             let out = engine::worker(scn.as_ref(), tier, p(4), p(5), p(6), p(7), Duration::from_secs(p(8)));
             println!("{}", serde_json::to_string(&out).unwrap());
             0
